@@ -118,3 +118,14 @@ Proof.
          [ {| d_gid := 0; d_dims := [0] |}; {| d_gid := 1; d_dims := [0] |} ].
   split; [reflexivity|]. split; [vm_compute; discriminate|reflexivity].
 Qed.
+
+(* /repo before f336e6e: the already-parsed branch recorded a parent without looking at its
+   dimensions; a second variable on another dimension of the same size made the whole read raise. *)
+Theorem C14_old_unchecked_parent_refuted :
+  exists conts dvs,
+    read_dataset_full true false true true conts dvs = Err ValueErr /\
+    read_dataset conts dvs = Ok [own_cells conts {| d_gid := 0; d_dims := [0] |}; None].
+Proof.
+  exists [cont_of two_cells 0 100], [ {| d_gid := 0; d_dims := [0] |}; {| d_gid := 0; d_dims := [7] |} ].
+  split; reflexivity.
+Qed.
